@@ -29,6 +29,23 @@ type boundedCallFact struct {
 func (f *boundedCallFact) Hit()            { f.Hits++ }
 func (f *boundedCallFact) Two() (int, int) { return 1, 2 }
 
+// fact methods that panic, with panic values of every shape (seed C14f: a recover that understood only error, string and Stringer)
+type boundedPanicValue struct{ Code int }
+
+func (f *boundedCallFact) PanicInt()     { panic(42) }
+func (f *boundedCallFact) PanicStruct()  { panic(boundedPanicValue{7}) }
+func (f *boundedCallFact) PanicPtr()     { panic(&boundedPanicValue{7}) }
+func (f *boundedCallFact) PanicErr()     { panic(fmt.Errorf("boom")) }
+func (f *boundedCallFact) PanicStr()     { panic("boom") }
+func (f *boundedCallFact) PanicBool()    { panic(false) }
+func (f *boundedCallFact) PanicFloat()   { panic(2.5) }
+func (f *boundedCallFact) PanicRuntime() { var m map[string]int; m["a"] = 1 }
+func (f *boundedCallFact) PanicIndex() int {
+	var a []int
+	return a[3]
+}
+func (f *boundedCallFact) PanicWith(x int64) int64 { panic(x) }
+
 func TestBoundedCallFunctionErrors(t *testing.T) {
 	failing := []string{
 		`F.Arr.Append("str");`,       // element type mismatch
@@ -42,6 +59,16 @@ func TestBoundedCallFunctionErrors(t *testing.T) {
 		`F.NoSuchMethod();`,          // unknown fact method
 		`F.Two();`,                   // multiple return values are not supported
 		`F.Hit(1);`,                  // wrong argument count for a fact method
+		`F.PanicInt();`,              // a fact method that panics: every shape of panic value
+		`F.PanicStruct();`,
+		`F.PanicPtr();`,
+		`F.PanicErr();`,
+		`F.PanicStr();`,
+		`F.PanicBool();`,
+		`F.PanicFloat();`,
+		`F.PanicRuntime();`,
+		`F.After = F.PanicIndex();`,  // ... also as the right-hand side of an assignment
+		`F.After = F.PanicWith(3);`,  // ... and with an argument
 	}
 	succeeding := []struct {
 		stmt  string
